@@ -4,6 +4,7 @@ from __future__ import annotations
 
 import itertools
 import os
+import re
 import warnings
 
 from ..core import Check, classify_exc, run_async
@@ -106,7 +107,7 @@ def source(ps) -> str:
 
 def preamble() -> str:
     """The piece table as a Gallina function (the harness's hand tokenisation of every piece) and the batch runner."""
-    lines = ["From Coq Require Import String Ascii.", "Local Open Scope string_scope. Local Open Scope list_scope.",
+    lines = ["From Coq Require Import String Ascii Uint63.", "Local Open Scope string_scope. Local Open Scope list_scope.",
              "Definition piece (d pos p : nat) : list tok :=", "  match p with", "  | 0 => [TContent [N.of_nat (97 + pos)]]"]
     for i, p in enumerate(PIECES):
         if i == 0:
@@ -141,13 +142,29 @@ def preamble() -> str:
               "Fixpoint seqs (ids : list nat) (k : nat) : list (list nat) :=",
               "  match k with O => [[]] | S k' => flat_map (fun a => map (cons a) (seqs ids k')) ids end.",
               "Record group := { g_lim : nat; g_seqs : list (list nat) }.",
-              "Definition run_group (g : group) : string := String.concat EmptyString (map (run_seq (g_lim g)) (g_seqs g))."]
+              "Definition run_group (g : group) : string := String.concat EmptyString (map (run_seq (g_lim g)) (g_seqs g)).",
+              "(* the observations of a whole group are compared through a polynomial hash modulo 2^63 (string literals are slow to read) *)",
+              "Definition code (c : ascii) : int :=",
+              "  match c with Ascii b0 b1 b2 b3 b4 b5 b6 b7 =>",
+              "    ((if b0 then 1 else 0) + (if b1 then 2 else 0) + (if b2 then 4 else 0) + (if b3 then 8 else 0) + (if b4 then 16 else 0)",
+              "     + (if b5 then 32 else 0) + (if b6 then 64 else 0) + (if b7 then 128 else 0))%uint63 end.",
+              "Definition hash_str (s : string) : int :=",
+              "  (fix go (s : string) (h : int) : int :=",
+              "     match s with EmptyString => h | String c r => go r (h * 1000003 + code c + 1)%uint63 end) s 0%uint63.",
+              "Definition run_group_hash (g : group) : int := hash_str (run_group g)."]
     return "\n".join(lines)
 
 
 EXNS = ["ELiquid", "ESyntax", "EType", "EUndefined", "EDisabledTag", "ENotFound", "ENoSuchFilter", "EFilterArg", "ELoopLimit", "EOutputLimit",
         "ENamespaceLimit", "EContextDepth", "EInherit", "ERequiredBlock", "EValueError", "ETypeError", "EOverflowError", "EIndexError", "EKeyError",
         "EAssertionError", "EArithmeticError", "ERecursionError", "EUnicodeError", "EOSError", "ERuntimeError", "EOtherForeign"]
+
+
+def hash_str(s: str) -> int:
+    h = 0
+    for ch in s:
+        h = (h * 1000003 + ord(ch) + 1) & 0x7FFFFFFFFFFFFFFF
+    return h
 
 
 def enc_obs(o) -> str:
@@ -245,7 +262,7 @@ def gen_groups(ck: Check):
     """Groups of (limit, layer label, Gallina term for the list of piece sequences, the sequences)."""
     allp = list(range(len(PIECES)))
     if ck.quick:
-        layers = [(allp, 2, 30), (CORE20, 3, 30), (CORE12, 4, 30), (CORE7, 5, 30), (CORE9, 4, 1)]
+        layers = [(allp, 2, 30), (CORE20, 3, 30), (CORE12, 4, 30), (CORE7, 4, 30), (CORE9, 3, 1)]
         nrand = 1500
     else:
         layers = [(allp, 3, 30), (CORE20, 4, 30), (CORE12, 5, 30), (CORE7, 6, 30), (CORE12, 4, 1), (CORE9, 5, 1)]
@@ -268,6 +285,64 @@ def gen_groups(ck: Check):
         for lo in range(0, len(seqs), GROUP):
             part = seqs[lo:lo + GROUP]
             yield lim, f"random.limit{lim}", "[" + "; ".join("[" + "; ".join(map(str, ps)) + "]" for ps in part) + "]", part
+    # well-formed templates (strict mode succeeds on most), half of them with one piece replaced, dropped or inserted
+    for lim in (30, 2):
+        seqs = []
+        for _ in range(nrand):
+            ps = wellformed(rng, 3)
+            if rng.random() < 0.5 and ps:
+                i = rng.randrange(len(ps))
+                r = rng.random()
+                ps = ps[:i] + ([] if r < 0.3 else [rng.choice(allp)]) + ps[i + (0 if r > 0.7 else 1):]
+            seqs.append(tuple(ps[:14]))
+        for lo in range(0, len(seqs), GROUP):
+            part = seqs[lo:lo + GROUP]
+            yield lim, f"wellformed-or-one-edit.limit{lim}", "[" + "; ".join("[" + "; ".join(map(str, ps)) + "]" for ps in part) + "]", part
+
+
+def wellformed(rng, depth):
+    """A well-formed template as a list of piece indices."""
+    I = IDX
+
+    def leaf():
+        return [I[rng.choice(["text", "text", "out", "out-cap", "assign", "echo", "out-rerr", "assign-rerr", "out-strictonly"])]]
+
+    def nodes(d, in_for):
+        out = []
+        for _ in range(rng.randrange(0, 3)):
+            out += node(d, in_for)
+        return out
+
+    def node(d, in_for):
+        r = rng.random()
+        if d == 0 or r < 0.4:
+            if in_for and rng.random() < 0.2:
+                return [I[rng.choice(["break", "continue"])]]
+            return leaf()
+        if r < 0.6:
+            out = [I[rng.choice(["if", "if", "unless", "if-rerr"])]]
+            end = I["endunless"] if out[0] == I["unless"] else I["endif"]
+            out += nodes(d - 1, in_for)
+            for _ in range(rng.randrange(0, 2)):
+                out += [I["elsif"]] + nodes(d - 1, in_for)
+            if rng.random() < 0.5:
+                out += [I[rng.choice(["else", "else", "else-expr"])]] + nodes(d - 1, in_for)
+            return out + [end]
+        if r < 0.75:
+            out = [I["for"]] + nodes(d - 1, True)
+            if rng.random() < 0.3:
+                out += [I["else"]] + nodes(d - 1, in_for)
+            return out + [I["endfor"]]
+        if r < 0.9:
+            out = [I["case"]]
+            for _ in range(rng.randrange(1, 3)):
+                out += [I[rng.choice(["when", "when2"])]] + nodes(d - 1, in_for)
+            if rng.random() < 0.5:
+                out += [I["else"]] + nodes(d - 1, in_for)
+            return out + [I["endcase"]]
+        return [I["capture"]] + nodes(d - 1, in_for) + [I["endcapture"]]
+
+    return nodes(depth, False) + node(depth, False)
 
 
 def run(ck: Check) -> None:
@@ -275,8 +350,8 @@ def run(ck: Check) -> None:
         "Sources are concatenations of pieces (one tag, output statement or run of text each; 41 pieces: well-formed and malformed "
         "output statements, if/unless/elsif/else, for/break/continue, case/when, capture, assign, echo, unknown tags, strict-only "
         "rejected paths, render-time errors). Exhaustive: every sequence of <=2 (quick) / <=3 (thorough) pieces over all 41, "
-        "<=3/4 over a core of 20, <=4/5 over a core of 12, <=5/6 over a core of 7, and <=4/5 over cores of 9/12 with block_nesting_limit=1; "
-        "plus seeded random sequences of 5..10 pieces with limits 30/1/2. Each source runs under STRICT, WARN and LAX on two data sets "
+        "<=3/4 over a core of 20, <=4/5 over a core of 12, <=4/6 over a core of 7, and <=3 (quick) / <=4, <=5 (thorough) over cores of 9 / 12, 9 with block_nesting_limit=1; "
+        "plus seeded random sequences of 5..10 pieces with limits 30/1/2 and seeded random well-formed templates (depth<=3), half of them with one piece replaced, dropped or inserted, limits 30/2. Each source runs under STRICT, WARN and LAX on two data sets "
         "through from_string + render and render_async, warnings recorded. Oracle on the observations alone; every sync observation is "
         "compared inside Coq with Recover.run_recover on the hand-tokenised pieces. Non-trivial = some mode suppressed or raised an error."
     )
@@ -284,7 +359,8 @@ def run(ck: Check) -> None:
     ck.trusted_base = [
         "Coq 8.16.1 kernel + vm_compute",
         "harness: piece table (source text and hand tokenisation with expression values per data set, props/c03.py), generators, oracle, "
-        "encoding of observations as text",
+        "encoding of observations as text; model and engine observations of a group of <=2500 sources are compared through a polynomial hash modulo 2^63 (Coq primitive integers) "
+        "computed inside Coq and in Python (a differing group is then re-evaluated and diffed source by source)",
         "modelled not verified: the template lexer (tokens taken as given; C10), expression parsers and evaluation (an expression is "
         "always-parses / strict-only-rejected / never-parses plus a value or a render-time error on the data), warnings module",
     ]
@@ -295,9 +371,13 @@ def run(ck: Check) -> None:
     ]
     ck.proof()
 
+    import time
+
+    t0 = time.time()
     groups = list(gen_groups(ck))
     flat = [(ps, lim) for lim, _layer, _term, seqs in groups for ps in seqs]
     results = batch(flat)
+    t1 = time.time()
     pre = preamble()
     coq_cases, coq_exp = [], []
     reported = 0
@@ -325,20 +405,20 @@ def run(ck: Check) -> None:
                     ck.count(f"observed.{m}.{o[0] if o[0] != 'out' else ('out+warnings' if o[2] else 'out')}")
             enc.append(enc_source(obs))
         coq_cases.append(f"{{| g_lim := {lim}; g_seqs := {term} |}}")
-        whole = "".join(enc).replace('"', '""')
-        coq_exp.append("[" + "; ".join('"' + whole[i:i + 1500] + '"' for i in range(0, len(whole), 1500)) + "]")
+        coq_exp.append(f"{hash_str(''.join(enc))}%uint63")
+    t2 = time.time()
     ck.traces += 12 * len(flat)
     ck.model_cases += 6 * len(flat) - len(groups)
     k = len(flat) // 3
     ck.sample({"template": source(flat[k][0]), "limit": flat[k][1],
                "observed": {f"{m}/{d}": results[k][(m, d, False)] for m in MODES for d in (0, 1)}})
-    mm = ck.coq_mismatches("recover", IMPORTS, "run_group", "fun a b => String.eqb a (String.concat EmptyString b)", "group", "list string", coq_cases, coq_exp, chunk=4, preamble=pre)
+    mm = ck.coq_mismatches("recover", IMPORTS, "run_group_hash", "Uint63.eqb", "group", "int", coq_cases, coq_exp, chunk=6, preamble=pre)
     shown = 0
-    for gi in mm:
+    for gi in mm[:2]:  # locate the differing sources of the first differing groups only
         lim, layer, term, seqs = groups[gi]
         # find the sources of the group on which model and engine differ
         model = ck.coq_eval(IMPORTS, [f"map (run_seq {lim}) ({term})"], preamble=pre)[0]
-        got = [x for x in model.split('"') if x.strip() not in ("", "[", "]", ";", "; ", ": list string", "] : list string")]
+        got = re.findall(r'"([^"]*)"', model)
         for i, ps in enumerate(seqs):
             want = enc_source(results[starts[gi] + i])
             have = got[i] if i < len(got) else "<missing>"
@@ -350,11 +430,12 @@ def run(ck: Check) -> None:
                              {"type": "modes", "pieces": list(ps), "limit": lim, "template": source(ps), "observed": want, "model": have,
                               "broken": "correspondence Recover.run_recover ~ from_string/render under the three modes (theorems C03_*)"},
                              no_input=True)
-        if shown == 0:
+        if shown == 0 and gi == mm[0]:
             shown += 1
             ck.violation("correspondence", "c03-recover-correspondence", f"group {layer} {term[:80]} differs but no single source located",
                          {"type": "modes", "group": term[:200], "broken": "correspondence Recover.run_recover"}, no_input=True)
     ck.extra["correspondence_group_mismatches"] = len(mm)
+    ck.extra["phase_seconds"] = {"engine": round(t1 - t0, 1), "oracle+encode": round(t2 - t1, 1), "coq": round(time.time() - t2, 1)}
 
 
 def replay(data) -> int:
